@@ -36,7 +36,7 @@ class C20(Prop):
         # translator ties: the regenerated guards / statements equal what the model does
         "NV.C20.tie_load_guard", "NV.C20.tie_load_no_current", "NV.C20.tie_load_test_first",
         "NV.C20.tie_clone_entry", "NV.C20.tie_clone_retest", "NV.C20.tie_clone_order",
-        "NV.C20.tie_export_error", "NV.C20.tie_export_target", "NV.C20.tie_seteuid_verdict", "NV.C20.tie_seteuid_null_verdict",
+        "NV.C20.tie_export_error", "NV.C20.tie_seteuid_verdict", "NV.C20.tie_seteuid_null_verdict",
         # round 5: inventory of every uid/euid write in the driver; interleaved statement order of the anchor functions
         "NV.C20.tie_uid_writes_governed", "NV.C20.tie_uid_write_inventory", "NV.C20.tie_uid_rules_all_used", "NV.C20.tie_uid_records_never_renamed",
         "NV.C20.tie_load_tail_shape", "NV.C20.tie_clone_shape", "NV.C20.tie_init_object_shape",
@@ -48,6 +48,8 @@ class C20(Prop):
         "NV.C20.tie_seteuid_write_dominated", "NV.C20.tie_giveuid_writes_dominated", "NV.C20.tie_export_write_dominated",
         "NV.C20.tie_master_write_dominated", "NV.C20.tie_bind_write_dominated",
         "NV.C20.tie_export_semantics", "NV.C20.tie_seteuid_int_semantics", "NV.C20.tie_seteuid_str_semantics",
+        "NV.C20.tie_reload_semantics", "NV.C20.tie_set_master_semantics", "NV.C20.tie_set_master_noroot",
+        "NV.C20.tie_premaster_semantics",
     ]
     consts = [("autoTrustBackbone", "NV_AUTO_TRUST_BACKBONE"), ("autoSeteuid", "NV_AUTO_SETEUID"),
               ("tNumber", "T_NUMBER"), ("tString", "T_STRING"), ("msMudlibLimbo", "MS_MUDLIB_LIMBO"),
@@ -76,9 +78,9 @@ class C20(Prop):
                   "uid, creation, noeuid, export, asked, bind, fp, vo) accepts the model's event trace (model_satisfies_spec); for EVERY "
                   "accepted trace - model or real driver - every euid name was granted by the master and every uid name decided by it "
                   "(euid_names_granted, uid_names_decided); the "
-                  "model is tied to the source by 37 regenerated bridging lemmas: path conditions of the euid tests, decision trees "
+                  "model is tied to the source by 40 regenerated bridging lemmas: path conditions of the euid tests, decision trees "
                   "of give_uid_to_object / f_seteuid / f_export_uid / reload_object / set_master / f_bind / load_virtual_object "
-                  "obtained by symbolic execution of their clang AST and proved equal to the model (tie_giveuid_semantics, tie_export_semantics, tie_seteuid_*_semantics: for every "
+                  "obtained by symbolic execution of their clang AST and proved equal to the model (tie_giveuid_semantics, tie_export_semantics, tie_seteuid_*_semantics, tie_reload_semantics, tie_set_master_semantics, tie_premaster_semantics: for every "
                   "configuration, world, object and master answer), dominance theorems (every uid/euid write on every path is "
                   "preceded by the master apply and verdict it needs), an inventory of EVERY write to object_t.uid/euid in src/ and "
                   "lib/, uid records never renamed after the first master load; and by running the real driver (ASan+UBSan) with a "
